@@ -1,5 +1,6 @@
 """Generators for fragment F (DESIGN section 6): domains, universes, states, calls.
 All randomness comes from a Chooser; results are plain data."""
+import json
 from fractions import Fraction
 
 from pv.ref import pddl
@@ -383,6 +384,10 @@ class FGen:
         if ft["when"] and ch.flag(0.15):
             w = self.when(scope)
             if w:
+                whens = [x for x in items if x and x[0] == "when"]
+                if whens and ch.flag(0.5):
+                    # the same consequences as an earlier when, under another condition: two effect groups all the same
+                    w = ["when", w[1], json.loads(json.dumps(whens[0][2]))]
                 items.append(w)
         if ft["forall_eff"] and self.dom["typed"] and ch.flag(ft["p_forall_eff"]):
             f = self.forall_eff(scope)
